@@ -290,6 +290,23 @@ theorem step_good2 (s : St) (h : Good2 s) (op : Op) (hv : validOp op) : Good2 (s
       · exact hclear
     · exact hclear
   | advance d => exact good2_congr hclear rfl rfl rfl rfl
+  | dispatch n =>
+    show Good2 (dispatch (clearOut s) n)
+    unfold dispatch
+    repeat' split
+    all_goals first | exact hclear | exact good2_congr hclear rfl rfl rfl rfl
+  | runcb =>
+    show Good2 (runCallback (clearOut s))
+    rw [runCallback_eq]
+    split
+    · exact hclear
+    · next n d rest _ =>
+      have h1 : Good2 { clearOut s with pending := rest } := good2_congr hclear rfl rfl rfl rfl
+      split
+      · exact h1
+      · split
+        · exact timerFire_good2 _ h1 n
+        · exact h1
 
 theorem reach_good2 {s : St} (h : Reach s) : Good2 s := by
   induction h with
